@@ -128,7 +128,7 @@ Section MruBridge.
       apply Nat.ltb_lt in L. rewrite L. cbn [bind].
       apply req_bind; [apply req_refl|]. intros ne En. proj.
       unfold set_ll_used, set_ll_end, set_ll_elems, set_ll_index, set_le_keyed, set_le_pos, set_le_val.
-      cbn [ll_cap ll_elems ll_index ll_list ll_end ll_used le_keyed le_pos le_val]. simpl. reflexivity.
+      cbn [ll_cap ll_elems ll_index ll_list ll_end ll_used le_keyed le_pos le_val]. rewrite ?Nat.add_1_r. simpl. reflexivity.
   Qed.
 
   Lemma g_do_update_ok (s : lrul K V) k idx v :
